@@ -7,6 +7,7 @@ mod netsim;
 mod hubsim;
 mod framework;
 mod scenario;
+mod muxscn;
 mod props;
 
 use framework::Tier;
@@ -18,6 +19,14 @@ fn usage() -> ! {
 
 fn main() {
     let args: Vec<String> = std::env::args().collect();
+    if args.len() >= 2 && args[1] == "h2selftest" {
+        match actors::h2::selftest() { Ok(()) => { println!("h2 selftest ok"); return; } Err(e) => { eprintln!("h2 selftest FAILED: {e}"); std::process::exit(2); } }
+    }
+    if args.len() >= 2 && args[1] == "h2demo" {
+        let seed: u64 = args.get(2).and_then(|s| s.parse().ok()).unwrap_or(1);
+        match actors::h2::demo_through_sozu(seed) { Ok(s) => println!("{s}"), Err(e) => { eprintln!("h2demo FAILED: {e}"); std::process::exit(2); } }
+        return;
+    }
     if args.len() < 3 { usage(); }
     let cmd = args[1].as_str();
     let id = args[2].as_str();
@@ -43,6 +52,9 @@ fn main() {
         }
         "replay" => {
             std::process::exit(framework::replay(prop.as_ref(), &args[3]));
+        }
+        "shrink" => {
+            framework::shrink_file(prop.as_ref(), &args[3], &args[4], &args[5], &args[6]);
         }
         "debug" => {
             let s = std::fs::read_to_string(&args[3]).expect("read");
